@@ -1,6 +1,7 @@
 (* [deepened: the full MGM statement (mgm_terminates_k, mgm_no_deadlock, mgm_trace_ok, the barrier
    invariant) is now proved for every schedule in P_Mgm3*.v -- see the section 'deepening' below;
-   the text that follows describes the first version and still applies to DSA and MGM2] *)
+   the text that follows describes the first version; DSA: see 'deepening, DSA'; MGM2: see 'deepening 2, MGM2'
+   (global barrier invariant, partner handshake, termination after k cycles, no deadlock, every schedule)] *)
 (* Prop_C07.v -- C07: cycle-bounded local search (MGM, MGM2, DSA) finishes after stop_cycle cycles.
    Only statements; each closed by an exact lemma from P_Mgm / P_Dsa / P_Mgm2.
 
